@@ -86,6 +86,10 @@ def cases(tier):
         if tier == 'quick' and os.path.getsize(os.path.join(CORPUS, f)) > 4000:
             continue
         yield ['corpus', f]
+    for fam, n in guided_families(tier):
+        step = 40 if fam == 'resolution' else 4
+        for i in range(0, n, step):
+            yield ['guided', fam, i, min(i + step, n)]
 
 
 # ------------------------------------------------------------------------------ judging
@@ -243,7 +247,105 @@ def corpus_files():
 
 
 def guided_families(tier):
-    return []
+    return [('resolution', 41 * 41), ('la_generic', 140 if tier == 'quick' else 280)]
+
+
+_GEN = {}
+
+
+def res_clauses():
+    if 'res' in _GEN:
+        return _GEN['res']
+    from kernel.term import Var, BoolType, Not
+    A, B, C = (Var(n, BoolType) for n in 'ABC')
+    lits = [A, Not(A), B, Not(B), C, Not(C)]
+    cls = []
+    for n in (1, 2, 3):
+        for combo in itertools.combinations(lits, n):
+            cls.append(tuple(combo))
+    _GEN['res'] = (lits, cls)
+    return _GEN['res']
+
+
+def la_literals(T):
+    """a * x (< | <=) c and their negations, a in {1, 2, 3, -1, -2}, c in {-3..3}"""
+    key = ('la', T)
+    if key in _GEN:
+        return _GEN[key]
+    from kernel.term import Var, Not
+    from kernel import term as kt
+    x = Var('x', T)
+    num = lambda k: kt.Number(T, k)
+    out = []
+    for a in (1, 2, 3, -1, -2):
+        for cst in range(-3, 4):
+            lhs = x if a == 1 else num(a) * x
+            for rel in (kt.less, kt.less_eq):
+                t = rel(T)(lhs, num(cst))
+                out.append(t)
+                out.append(Not(t))
+    _GEN[key] = out
+    return out
+
+
+def run_guided(case, tier):
+    from kernel import theory
+    from kernel.thm import Thm
+    from kernel.term import Or, Not
+    from kernel import term as kt
+    from kernel.type import IntType, RealType
+    fam, lo, hi = case[1], case[2], case[3]
+    n_acc = 0
+    seen = set()
+    if fam == 'resolution':
+        macro = theory.get_macro('verit_th_resolution')
+        lits, cls = res_clauses()
+        concls = [()] + [c for c in cls]
+        for idx in range(lo, hi):
+            c1, c2 = cls[idx // len(cls)], cls[idx % len(cls)]
+            prevs = [Thm(Or(*c1)), Thm(Or(*c2))]
+            sizes = (len(c1), len(c2))
+            for cl in concls:
+                res = try_eval(macro, (cl, sizes), prevs)
+                cnt('guided resolution: tuples given to eval')
+                if res is None:
+                    continue
+                key = (res.prop, c1, c2)
+                if key in seen:
+                    continue
+                seen.add(key)
+                cls_, bad = judge('verit_th_resolution', (lambda cl=cl, sizes=sizes: '([%s]; %s)' % (', '.join(map(str, cl)), list(sizes))), prevs, res)
+                cnt('guided resolution: accepted judged ' + cls_)
+                if bad:
+                    return Outcome(cls_, violation=bad)
+                if cls_ == 'consequence':
+                    n_acc += 1
+    elif fam == 'la_generic':
+        macro = theory.get_macro('verit_la_generic')
+        for T in (IntType, RealType):
+            L = la_literals(T)
+            num = lambda k: kt.Number(T, k)
+            coeffs = [num(1), num(2), num(3)] + ([kt.Number(RealType, 1) / kt.Number(RealType, 2)] if T == RealType else [])
+            for idx in range(lo, min(hi, len(L))):
+                l1 = L[idx]
+                for l2 in L:
+                    for c1 in coeffs:
+                        for c2 in coeffs:
+                            res = try_eval(macro, (l1, l2, [c1, c2]), [])
+                            cnt('guided la_generic: tuples given to eval')
+                            if res is None:
+                                continue
+                            key = res.prop
+                            if key in seen:
+                                continue
+                            seen.add(key)
+                            cls_, bad = judge('verit_la_generic', (lambda l1=l1, l2=l2, c1=c1, c2=c2: '(%s; %s; [%s, %s])' % (l1, l2, c1, c2)), [], res)
+                            cnt('guided la_generic: accepted judged ' + cls_)
+                            if bad:
+                                return Outcome(cls_, violation=bad)
+                            if cls_ == 'consequence':
+                                n_acc += 1
+    return Outcome('accepted-all-consequences' if n_acc else 'nothing-accepted', n_acc > 0, obs='%s/%d:%d' % (fam, lo, n_acc))
 
 
 def replay_file(fname):
@@ -437,10 +539,6 @@ def run_corpus(case, tier):
             if cls == 'consequence':
                 n_judged += 1
     return Outcome('accepted-all-consequences' if n_judged else 'nothing-judged', n_judged > 0, obs='%s:%d' % (fname[:40], n_judged))
-
-
-def run_guided(case, tier):
-    return Outcome('nothing-accepted')
 
 
 _TIER = ['quick']
